@@ -183,7 +183,7 @@ func (g *Gen) computeAllMods() {
 			ms := g.modCache[fn]
 			for _, b := range fn.Blocks {
 				for _, in := range b.Instrs {
-					where := fmt.Sprintf("%s: %s", funcDisplayName(fn), g.srcText(in.Pos(), "any"))
+					where := fmt.Sprintf("%s @%d", funcDisplayName(fn), in.Pos())
 					switch x := in.(type) {
 					case *ssa.Store:
 						ds, local := addrDescs(x.Addr, where)
@@ -391,7 +391,7 @@ func (g *Gen) implementations(it types.Type, m *types.Func) []*ssa.Function {
 // modifiesDescs: component-level reading of a modifies clause.
 func (g *Gen) modifiesDescs(ct *Contract, where string) (out []*ModDesc, all bool) {
 	pkg := g.pkgByPath(ct.Pkg)
-	for _, it := range ct.Modifies {
+	for _, it := range g.expandFrame(ct.Modifies) {
 		switch it {
 		case "nothing":
 			continue
